@@ -11,7 +11,7 @@ mkdir -p "$O"
 (
 flock 9
 WRAP=""
-for s in read write open close lseek fsync unlink fchown fchmod futimens fstat stat lstat poll pipe posix_fadvise geteuid \
+for s in read write open close lseek fsync unlink fchown fchmod futimens fstat stat lstat poll pipe posix_fadvise geteuid malloc calloc realloc free \
   pthread_create pthread_join pthread_mutex_init pthread_mutex_destroy pthread_mutex_lock pthread_mutex_unlock \
   pthread_cond_init pthread_cond_destroy pthread_cond_signal pthread_cond_wait pthread_cond_timedwait clock_gettime; do
   WRAP="$WRAP -Wl,--wrap=$s"
